@@ -4,11 +4,24 @@
    Dave Prosser's macro-expansion algorithm — the algorithm behind C11 6.10.3,
    and the one preprocess.c says it implements — as a state machine.
 
-   token      [s, sp, hs, der]   spelling, preceded-by-white-space (has_space or
-                                 at_bol), hide set, der = "spacing derived by an
-                                 expansion" (stringizing such a token is only
-                                 compared modulo blanks: the standard does not
-                                 fix white space that macro replacement creates)
+   token      [s, sp, hs, der, tv]   spelling, preceded by white space, hide set.
+                                 WHITE SPACE (Level A, 6.10.3.2p2 "each occurrence
+                                 of white space between the argument's preprocessing
+                                 tokens becomes a single space"): a token is preceded
+                                 by white space iff white space is written before it in
+                                 the text it was written in (source or replacement
+                                 list); the first token of what replaces an item (macro
+                                 name or invocation, parameter, `#x`, `l ## r`,
+                                 __LINE__ ...) stands in that item's place and takes ITS
+                                 white space; the token after it keeps its own.  Macro
+                                 replacement never creates white space.  Where an item
+                                 VANISHES (empty expansion, empty argument, placemarker,
+                                 absent __VA_OPT__) the standard does not say whether
+                                 the white space written before it still separates its
+                                 neighbours: der = "the blank before this token is
+                                 optional", tv = "a blank after this token is optional";
+                                 a stringized text carries a TAB at such a place and the
+                                 harness accepts a blank or nothing there.
    macro      [name, fun, params, va, body]     (cs.defs, fixed per behaviour)
    frame      [inp, out, call]   a token list being scanned; frame 1 is the
                                  source text, deeper frames are arguments being
@@ -55,10 +68,16 @@ VARIABLES cs, stack, ctr, steps, flags, status, last
 vars == <<cs, stack, ctr, steps, flags, status, last>>
 
 (* ------------------------------------------------------------ tokens *)
-Tk(it)   == [s |-> it.s, sp |-> it.w # "", hs |-> {}, der |-> FALSE]
+Tk(it)   == [s |-> it.s, sp |-> it.w # "", hs |-> {}, der |-> FALSE, tv |-> FALSE]
 Tks(its) == [i \in 1..Len(its) |-> Tk(its[i])]
 AddHS(ts, H) == [i \in 1..Len(ts) |-> [ts[i] EXCEPT !.hs = @ \cup H]]
-WithSp(ts, sp) == IF ts = <<>> THEN ts ELSE [ts EXCEPT ![1].sp = sp, ![1].der = TRUE]
+WithSp(ts, sp) == IF ts = <<>> THEN ts ELSE [ts EXCEPT ![1].sp = sp]
+(* ts stands in the place of item t (fields sp, der, tv) *)
+InPlace(ts, t) == IF ts = <<>> THEN ts
+                  ELSE LET a == [ts EXCEPT ![1].sp = t.sp, ![1].der = @ \/ t.der] IN [a EXCEPT ![Len(a)].tv = @ \/ t.tv]
+(* an item preceded by white space (or by an optional blank) vanished just before ts / just after ts *)
+VanishBefore(ts, v) == IF ts = <<>> \/ ~v \/ ts[1].sp THEN ts ELSE [ts EXCEPT ![1].der = TRUE]
+VanishAfter(ts, v)  == IF ts = <<>> \/ ~v THEN ts ELSE [ts EXCEPT ![Len(ts)].tv = TRUE]
 SpellT(ts) == [i \in 1..Len(ts) |-> ts[i].s]
 
 Names(c) == {c.defs[i].name : i \in DOMAIN c.defs}
@@ -126,60 +145,87 @@ EscCh(c) == IF c \in {"\"", "\\"} THEN "\\" \o c ELSE c
 Esc(s)   == IF KindOf(s) \in {"str", "chr"}                                   \* 6.10.3.2p2; quote_string
             THEN FoldLeft(LAMBDA a, j : a \o EscCh(Ch(s, j)), "", [j \in 1..Len(s) |-> j])
             ELSE s
-(* stringize / join_tokens: one blank where the argument had white space, none at the ends *)
-StrOf(ts) == "\"" \o FoldLeft(LAMBDA a, j : a \o (IF j > 1 /\ ts[j].sp THEN " " ELSE "") \o Esc(ts[j].s),
+(* stringize / join_tokens: one blank where the argument had white space, none at the ends; a TAB where
+   the blank is optional (a vanished item stood there) *)
+OptBlank == "\t"
+StrOf(ts) == "\"" \o FoldLeft(LAMBDA a, j : a \o (IF j = 1 THEN "" ELSE IF ts[j].der \/ ts[j - 1].tv THEN OptBlank
+                                                  ELSE IF ts[j].sp THEN " " ELSE "") \o Esc(ts[j].s),
                               "", [j \in 1..Len(ts) |-> j]) \o "\""
-Fuzzy(ts) == \E j \in 2..Len(ts) : ts[j].der
+(* 6.10.3.2p2: "If the replacement that results is not a valid character string literal, the behavior
+   is undefined" — a lone backslash (pp-token of the category "other") is copied as it is *)
+RECURSIVE EscSeqOK(_, _)
+EscSeqOK(s, i) == IF i >= Len(s) THEN TRUE
+                  ELSE IF Ch(s, i) # "\\" THEN EscSeqOK(s, i + 1)
+                  ELSE IF Ch(s, i + 1) \in {"n", "t", "\\", "'", "\"", "?", "a", "b", "f", "r", "v", "0", "1", "2", "3", "4", "5", "6", "7"} THEN EscSeqOK(s, i + 2)
+                  ELSE IF Ch(s, i + 1) = "x" /\ Ch(s, i + 2) \in Digit \cup {"a", "b", "c", "d", "e", "f", "A", "B", "C", "D", "E", "F"} THEN EscSeqOK(s, i + 3)
+                  ELSE FALSE
+StrValid(str) == LET s == FoldLeft(LAMBDA a, j : a \o (IF Ch(str, j) = OptBlank THEN " " ELSE Ch(str, j)), "", [j \in 1..Len(str) |-> j])
+                 IN IsOneToken(s) /\ EscSeqOK(s, 2)
 
-PMTok(sp) == [s |-> "", sp |-> sp, hs |-> {}, der |-> FALSE]       \* placemarker (6.10.3.3p2)
+PMTok(sp) == [s |-> "", sp |-> sp, hs |-> {}, der |-> FALSE, tv |-> FALSE]       \* placemarker (6.10.3.3p2); also what an item that vanishes leaves behind
 (* Prosser's glue; a placemarker born from two placemarkers is marked (der) for finding classification *)
 Glue(l, r) == IF l.s = "" /\ r.s = "" THEN [l EXCEPT !.der = TRUE]
               ELSE IF l.s = "" THEN [r EXCEPT !.sp = l.sp]
               ELSE IF r.s = "" THEN l
-              ELSE [s |-> l.s \o r.s, sp |-> TRUE, hs |-> l.hs \cap r.hs, der |-> TRUE]   \* paste(): tokenize() sets at_bol
+              ELSE [s |-> l.s \o r.s, sp |-> l.sp, hs |-> l.hs \cap r.hs, der |-> l.der, tv |-> r.tv]   \* the new token stands where its operands stood
 
 (* subst(): the replacement list `b` of m with the parameters replaced.
    raw[p] = argument tokens as written, exp[p] = completely macro-replaced
-   (only consulted where 6.10.3.1 asks for it).  Result [out, undef, fz, pmpm]. *)
+   (only consulted where 6.10.3.1 asks for it).  An item that produces nothing
+   leaves a placemarker carrying its white space; the placemarkers that are
+   not consumed by ## are folded away at the end (VanishBefore / VanishAfter).
+   Result [out, undef, pmpm, vcarry]; vcarry: nothing is left and white space
+   was written before something that vanished. *)
+StrTok(ts, sp) == [s |-> StrOf(ts), sp |-> sp, hs |-> {}, der |-> FALSE, tv |-> FALSE]
+FoldPM(ts) ==       \* (lead: something vanished in front of the first token that is left, whose own white space
+                    \*  then lies INSIDE what replaces the item, after nothing: optional as well)
+  LET r == FoldLeft(LAMBDA st, j :
+                      IF ts[j].s = "" THEN [st EXCEPT !.carry = @ \/ ts[j].sp, !.lead = (st.out = <<>>)]
+                      ELSE [out |-> st.out \o (IF st.lead /\ ts[j].sp THEN <<[ts[j] EXCEPT !.der = TRUE]>> ELSE VanishBefore(<<ts[j]>>, st.carry)),
+                            carry |-> FALSE, lead |-> FALSE],
+                    [out |-> <<>>, carry |-> FALSE, lead |-> FALSE], [j \in 1..Len(ts) |-> j])
+  IN [out |-> VanishAfter(r.out, r.carry), vcarry |-> r.carry /\ r.out = <<>>]
+
 RECURSIVE SubstBody(_, _, _, _, _)
 SubstBody(m, b, raw, exp, omitted) ==
   LET n == Len(b)
       S(i) == IF i >= 1 /\ i <= n THEN b[i].s ELSE ""
       P(i) == IF m.fun /\ i >= 1 /\ i <= n THEN PIdx(m, b[i].s) ELSE 0
       va == Len(PN(m))
+      OrPM(ts, sp) == IF ts = <<>> THEN <<PMTok(sp)>> ELSE WithSp(ts, sp)
       Step(acc, i) ==
         IF acc.skip > 0 THEN [acc EXCEPT !.skip = @ - 1]
         ELSE IF S(i) = "##" THEN [acc EXCEPT !.pend = TRUE]
         ELSE
         LET t == b[i]
             sp == t.w # ""
-            o == \* operand produced at position i: [ts, skip, fz]
+            o == \* operand produced at position i: [ts, skip, bad]
               IF m.fun /\ S(i) = "#"
-              THEN [ts |-> <<[s |-> StrOf(raw[P(i + 1)]), sp |-> TRUE, hs |-> {}, der |-> TRUE]>>, skip |-> 1, fz |-> Fuzzy(raw[P(i + 1)])]
+              THEN [ts |-> <<StrTok(raw[P(i + 1)], sp)>>, skip |-> 1, bad |-> ~StrValid(StrOf(raw[P(i + 1)]))]
               ELSE IF m.va /\ S(i) = "," /\ S(i + 1) = "##" /\ S(i + 2) = "__VA_ARGS__"
-              THEN (IF omitted THEN [ts |-> <<>>, skip |-> 2, fz |-> FALSE]              \* [GNU] comma deleted
-                    ELSE [ts |-> <<Tk(t)>> \o WithSp(raw[va], b[i + 2].w # ""), skip |-> 2, fz |-> FALSE])
+              THEN (IF omitted THEN [ts |-> <<PMTok(sp)>>, skip |-> 2, bad |-> FALSE]              \* [GNU] comma deleted
+                    ELSE [ts |-> <<Tk(t)>> \o (IF raw[va] = <<>> THEN <<PMTok(FALSE)>> ELSE raw[va]), skip |-> 2, bad |-> FALSE])   \* (as written in the invocation: gcc)
               ELSE IF m.va /\ S(i) = "__VA_OPT__"
               THEN LET c == Match(b, i + 1)
                        r == SubstBody(m, SubSeq(b, i + 2, c - 1), raw, exp, omitted)
-                   IN [ts |-> IF raw[va] # <<>> THEN WithSp(r.out, sp) ELSE <<>>, skip |-> c - i, fz |-> r.fz]
+                   IN [ts |-> IF raw[va] # <<>> THEN OrPM(r.out, sp \/ (r.out = <<>> /\ r.vcarry)) ELSE <<PMTok(sp)>>, skip |-> c - i, bad |-> r.undef]
               ELSE IF P(i) # 0
               THEN (IF acc.pend \/ S(i + 1) = "##"
-                    THEN [ts |-> IF raw[P(i)] = <<>> THEN <<PMTok(sp)>> ELSE WithSp(raw[P(i)], sp), skip |-> 0, fz |-> FALSE]
-                    ELSE [ts |-> WithSp(exp[P(i)], sp), skip |-> 0, fz |-> FALSE])
-              ELSE [ts |-> <<Tk(t)>>, skip |-> 0, fz |-> FALSE]
+                    THEN [ts |-> OrPM(raw[P(i)], sp), skip |-> 0, bad |-> FALSE]
+                    ELSE [ts |-> OrPM(exp[P(i)], sp), skip |-> 0, bad |-> FALSE])
+              ELSE [ts |-> <<Tk(t)>>, skip |-> 0, bad |-> FALSE]
         IN IF acc.pend
            THEN LET l == IF acc.out = <<>> THEN PMTok(FALSE) ELSE Last(acc.out)
-                    r == IF o.ts = <<>> THEN PMTok(FALSE) ELSE o.ts[1]
-                IN [out |-> (IF acc.out = <<>> THEN <<>> ELSE Front(acc.out)) \o <<Glue(l, r)>> \o (IF o.ts = <<>> THEN <<>> ELSE Tail(o.ts)),
+                    r == o.ts[1]
+                IN [out |-> (IF acc.out = <<>> THEN <<>> ELSE Front(acc.out)) \o <<Glue(l, r)>> \o Tail(o.ts),
                     pend |-> FALSE, skip |-> o.skip,
-                    undef |-> acc.undef \/ (l.s # "" /\ r.s # "" /\ ~IsOneToken(l.s \o r.s)),
-                    fz |-> acc.fz \/ o.fz,
+                    undef |-> acc.undef \/ o.bad \/ (l.s # "" /\ r.s # "" /\ ~IsOneToken(l.s \o r.s)),
                     pmpm |-> acc.pmpm \/ (l.s = "" /\ l.der)]
-           ELSE [acc EXCEPT !.out = @ \o o.ts, !.skip = o.skip, !.fz = @ \/ o.fz]
-      r == FoldLeft(Step, [out |-> <<>>, pend |-> FALSE, skip |-> 0, undef |-> FALSE, fz |-> FALSE, pmpm |-> FALSE],
+           ELSE [acc EXCEPT !.out = @ \o o.ts, !.skip = o.skip, !.undef = @ \/ o.bad]
+      r == FoldLeft(Step, [out |-> <<>>, pend |-> FALSE, skip |-> 0, undef |-> FALSE, pmpm |-> FALSE],
                     [i \in 1..n |-> i])
-  IN [out |-> SelectSeq(r.out, LAMBDA t : t.s # ""), undef |-> r.undef, fz |-> r.fz, pmpm |-> r.pmpm]
+      f == FoldPM(r.out)
+  IN [out |-> f.out, undef |-> r.undef, pmpm |-> r.pmpm, vcarry |-> f.vcarry]
 
 (* [GNU] `, ## __VA_ARGS__`: gcc and clang delete the comma only when the variable argument is
    absent, and keep it when it is present but empty (`f(1,)`); the GNU documentation says "omitted or
@@ -204,7 +250,7 @@ NCases == NCasesOf(Family)     \* MacroFamilies.tla: CaseAt(Family, i) = [fam, i
 Selected(i) == (i * 31 + Seed) % Stride = 0
 
 (* ------------------------------------------------------------- machine *)
-NoCall == [on |-> FALSE, name |-> "", hs |-> {}, sp |-> FALSE, raw |-> <<>>, exp |-> <<>>, todo |-> {}, cur |-> 0, omitted |-> FALSE]
+NoCall == [on |-> FALSE, name |-> "", hs |-> {}, sp |-> FALSE, der |-> FALSE, tv |-> FALSE, raw |-> <<>>, exp |-> <<>>, todo |-> {}, cur |-> 0, omitted |-> FALSE]
 Frame(inp) == [inp |-> inp, out |-> <<>>, call |-> NoCall]
 Top == stack[Len(stack)]
 SetTop(f) == [stack EXCEPT ![Len(stack)] = f]
@@ -225,11 +271,16 @@ Init == /\ \E i \in 1..NCases : Selected(i) /\ cs = CaseAt(Family, i)
         /\ status = IF ClassOfDefs(cs) = "ok" THEN "run" ELSE "stop"
         /\ last = [act |-> "init", name |-> "", hs |-> {}]
 
-(* the token after an expansion result: expand_macro writes the macro token's flags onto *rest *)
-AfterEmpty(rest, t) == IF rest = <<>> THEN rest
-                       ELSE [rest EXCEPT ![1].sp = IF EmptyFix THEN @ \/ t.sp ELSE t.sp, ![1].der = TRUE]
-Splice(res, rest, t) == IF res = <<>> THEN AfterEmpty(rest, t)
-                        ELSE WithSp(res, t.sp) \o (IF rest = <<>> THEN rest ELSE [rest EXCEPT ![1].der = TRUE])
+(* `res` replaces the item t (a macro name or a whole invocation; t has the fields sp, der, tv) in front of
+   `rest`, behind `out`.  If nothing is left of it the item vanished: v says that white space (or an optional
+   blank) stood before it.  The `sp` written onto the next token is expand_macro's flag handling (it feeds
+   print_tokens: Printer.tla), pinned rule or with EmptyFix the repair (flags or-ed onto the next token). *)
+VanishV(t, r) == t.sp \/ t.der \/ t.tv \/ r.vcarry
+AfterEmpty(rest, t, v, lead) == IF rest = <<>> THEN rest
+                                ELSE [rest EXCEPT ![1].der = @ \/ (v /\ ~rest[1].sp) \/ (lead /\ rest[1].sp),
+                                                  ![1].sp = IF EmptyFix THEN @ \/ t.sp ELSE t.sp]
+SpliceInp(res, rest, t, v, lead) == IF res = <<>> THEN AfterEmpty(rest, t, v, lead) ELSE InPlace(res, t) \o rest
+SpliceOut(res, out, v) == IF res = <<>> THEN VanishAfter(out, v) ELSE out
 
 Pass == /\ Scanning
         /\ ~Expandable(T0) /\ T0.s \notin Dynamic
@@ -246,7 +297,7 @@ NotInvoked == /\ Scanning
               /\ Step /\ UNCHANGED <<cs, ctr, flags, status>>
 
 DynTok(t) == [s |-> IF t.s = "__COUNTER__" THEN ToString(ctr) ELSE IF t.s = "__LINE__" THEN "<LINE>" ELSE "<FILE>",
-              sp |-> TRUE, hs |-> {}, der |-> TRUE]
+              sp |-> t.sp, hs |-> {}, der |-> t.der, tv |-> t.tv]          \* the new token stands where the name stood
 Dyn == /\ Scanning
        /\ T0.s \in Dynamic
        /\ stack' = SetTop([Top EXCEPT !.inp = <<DynTok(T0)>> \o Tail(@)])
@@ -260,7 +311,7 @@ ExpandObj ==
   /\ LET m == Def(cs, T0.s)
          r == SubstBody(m, m.body, <<>>, <<>>, FALSE)
          res == AddHS(r.out, ObjHS(T0.hs, T0.s))
-     IN /\ stack' = SetTop([Top EXCEPT !.inp = Splice(res, Tail(Top.inp), T0)])
+     IN /\ stack' = SetTop([Top EXCEPT !.inp = SpliceInp(res, Tail(Top.inp), T0, VanishV(T0, r), Top.out = <<>>), !.out = SpliceOut(res, @, VanishV(T0, r))])
         /\ flags' = flags \cup (IF r.undef THEN {"undef"} ELSE {}) \cup (IF r.pmpm THEN {"pmpm"} ELSE {})
                           \cup (IF \E i \in DOMAIN m.body : m.body[i].s = "##" THEN {"objpaste"} ELSE {})
   /\ last' = [act |-> "obj", name |-> T0.s, hs |-> T0.hs]
@@ -293,7 +344,7 @@ CollectArgs ==
         /\ \E R \in (IF Unspec /\ inter # T0.hs THEN {Top.inp[c].hs, T0.hs} ELSE {Top.inp[c].hs}) :   \* R = hs(T): the other conforming choice
              stack' = SetTop([Top EXCEPT !.inp = SubSeq(Top.inp, c + 1, Len(Top.inp)),
                                          !.call = [on |-> TRUE, name |-> T0.s,
-                                                   hs |-> IF HideFix THEN FunHS(T0.hs, R, T0.s) ELSE T0.hs \cap R, sp |-> T0.sp,
+                                                   hs |-> IF HideFix THEN FunHS(T0.hs, R, T0.s) ELSE T0.hs \cap R, sp |-> T0.sp, der |-> T0.der, tv |-> Top.inp[c].tv,
                                                    raw |-> a.raw, exp |-> [p \in 1..Len(a.raw) |-> <<>>],
                                                    todo |-> {p \in 1..Len(a.raw) : NeedExp(m, p) /\ a.raw[p] # <<>>},
                                                    cur |-> 0, omitted |-> a.omitted]])
@@ -324,8 +375,8 @@ ExpandFunc ==
          m == Def(cs, cl.name)
          r == SubstBody(m, m.body, cl.raw, cl.exp, cl.omitted)
          res == AddHS(r.out, cl.hs)
-     IN /\ stack' = SetTop([Top EXCEPT !.inp = Splice(res, Top.inp, [sp |-> cl.sp]), !.call = NoCall])
-        /\ flags' = flags \cup (IF r.undef THEN {"undef"} ELSE {}) \cup (IF r.fz THEN {"fz"} ELSE {})
+     IN /\ stack' = SetTop([Top EXCEPT !.inp = SpliceInp(res, Top.inp, cl, VanishV(cl, r), Top.out = <<>>), !.out = SpliceOut(res, @, VanishV(cl, r)), !.call = NoCall])
+        /\ flags' = flags \cup (IF r.undef THEN {"undef"} ELSE {})
                           \cup (IF r.pmpm THEN {"pmpm"} ELSE {})
                           \cup (IF HasVaOpt(m) /\ cl.raw[Len(cl.raw)] # <<>> /\ cl.exp[Len(cl.raw)] = <<>> THEN {"excluded"} ELSE {})
   /\ last' = [act |-> "subst", name |-> Top.call.name, hs |-> Top.call.hs]
@@ -336,7 +387,7 @@ ClassOf(fl) == IF fl \cap {"constraint", "argerr", "unterminated", "undef"} # {}
                ELSE "ok"
 
 Result == SpellT(stack[1].out)
-Record(st, fl) == [fam |-> cs.fam, id |-> cs.id, defs |-> cs.defs, inv |-> cs.inv,
+Record(st, fl) == [fam |-> cs.fam, id |-> cs.id, tag |-> cs.tag, defs |-> cs.defs, inv |-> cs.inv,
                    out |-> Result, sp |-> [i \in 1..Len(stack[1].out) |-> stack[1].out[i].sp],
                    flags |-> SetToSeq(fl), class |-> ClassOf(fl), steps |-> steps, ctr |-> ctr]
 EmitRec(fl) == IF Emit THEN CSVWrite("%1$s", <<ToJson(Record("done", fl))>>, IOEnv.OUT) ELSE TRUE
@@ -383,15 +434,20 @@ RefExpand(c, ts, fuel) ==
   ELSE LET t == ts[1] rest == Tail(ts) IN
     IF ~(t.s \in Names(c) /\ t.s \notin Dynamic /\ t.s \notin t.hs) THEN <<t>> \o RefExpand(c, rest, fuel)
     ELSE LET m == Def(c, t.s) IN
-      IF ~m.fun THEN RefExpand(c, AddHS(SubstBody(m, m.body, <<>>, <<>>, FALSE).out, t.hs \cup {t.s}) \o rest, fuel - 1)
+      IF ~m.fun THEN RefExpand(c, InPlace(AddHS(SubstBody(m, m.body, <<>>, <<>>, FALSE).out, t.hs \cup {t.s}), t) \o rest, fuel - 1)
       ELSE IF rest = <<>> \/ rest[1].s # "(" \/ Match(ts, 2) = 0 \/ ~Args(m, ts, Match(ts, 2)).ok
            THEN <<t>> \o RefExpand(c, rest, fuel)
       ELSE LET cl == Match(ts, 2)
                a == Args(m, ts, cl)
                ex == [p \in 1..Len(a.raw) |-> IF NeedExp(m, p) THEN RefExpand(c, a.raw[p], fuel - 1) ELSE <<>>]
-           IN RefExpand(c, AddHS(SubstBody(m, m.body, a.raw, ex, a.omitted).out, (t.hs \cap ts[cl].hs) \cup {t.s})
+           IN RefExpand(c, InPlace(AddHS(SubstBody(m, m.body, a.raw, ex, a.omitted).out, (t.hs \cap ts[cl].hs) \cup {t.s}), t)
                            \o SubSeq(ts, cl + 1, Len(ts)), fuel - 1)
-FinalAgree == status = "done" /\ "straddle" \notin flags /\ cs.fam # "F6" => Result = SpellT(RefExpand(cs, Tks(cs.inv), MaxSteps))
+(* (the functional definition does not track where items vanished: stringized texts are compared without their blanks) *)
+Squash(sps) == [i \in DOMAIN sps |-> IF KindOf(sps[i]) = "str"
+                                     THEN FoldLeft(LAMBDA a, j : IF Ch(sps[i], j) \in {" ", OptBlank} THEN a ELSE a \o Ch(sps[i], j), "", [j \in 1..Len(sps[i]) |-> j])
+                                     ELSE sps[i]]
+DynFams == {"F6", "F13"}      \* families with __COUNTER__: one order of argument pre-expansion only
+FinalAgree == status = "done" /\ "straddle" \notin flags /\ cs.fam \notin DynFams => Squash(Result) = Squash(SpellT(RefExpand(cs, Tks(cs.inv), MaxSteps)))
 
 (* 6.10.3.5: the machine prints what the standard prints for its own examples *)
 StandardExamples == status = "done" /\ cs.want # "" => Result = Lex(cs.want)
